@@ -12,9 +12,21 @@ mod sx;
 mod ty;
 mod val;
 mod ops;
+mod native;
 
 use std::io::{BufRead, Write};
 use std::panic;
+
+/// bytes ever requested from the allocator (cumulative), for the allocation bound of C06
+pub static ALLOCATED: std::sync::atomic::AtomicUsize = std::sync::atomic::AtomicUsize::new(0);
+struct Counting;
+unsafe impl std::alloc::GlobalAlloc for Counting {
+    unsafe fn alloc(&self, l: std::alloc::Layout) -> *mut u8 { ALLOCATED.fetch_add(l.size(), std::sync::atomic::Ordering::Relaxed); std::alloc::System.alloc(l) }
+    unsafe fn dealloc(&self, p: *mut u8, l: std::alloc::Layout) { std::alloc::System.dealloc(p, l) }
+    unsafe fn realloc(&self, p: *mut u8, l: std::alloc::Layout, n: usize) -> *mut u8 { if n > l.size() { ALLOCATED.fetch_add(n - l.size(), std::sync::atomic::Ordering::Relaxed); } std::alloc::System.realloc(p, l, n) }
+}
+#[global_allocator]
+static GLOBAL: Counting = Counting;
 
 pub struct Emit {
     pub lines: Vec<String>,
@@ -60,7 +72,7 @@ pub fn eval_caught(op: &str, args: &[&str]) -> String {
 }
 
 fn main() {
-    panic::set_hook(Box::new(|_| {}));
+    if std::env::var("HARNESS_PANIC_MSG").is_err() { panic::set_hook(Box::new(|_| {})); }
     let argv: Vec<String> = std::env::args().collect();
     match argv.get(1).map(|s| s.as_str()) {
         Some("gen") => {
